@@ -7,6 +7,7 @@ import SolverzModel.Driver.C04
 import SolverzModel.Driver.C07
 import SolverzModel.Driver.C06
 import SolverzModel.Driver.C12
+import SolverzModel.Driver.C11
 open Solverz Solverz.Drv
 
 structure DState where
@@ -19,6 +20,7 @@ def stepLine (st : DState) (line : String) : DState × String :=
   | "c07" :: ws => (st, C07.step ws)
   | "c06" :: ws => (st, C06.step ws)
   | "c12" :: ws => (st, C12.step ws)
+  | "c11" :: ws => (st, C11.step ws)
   | [] => (st, "")
   | _ => (st, "bad-op")
 
